@@ -93,6 +93,7 @@ func Main(c *run.Ctx) {
 	c.Floor("canary pushes acknowledged and found intact", total/4, 0)
 	c.Floor("multi-portion bodies pushed while another client pushes", c.Pick(100, 300), 0)
 	c.Floor("multi-portion bodies uploaded slowly while every INSERT fails", c.Pick(10, 200), 0)
+	c.Floor("bursts of eight clients pushing bodies with label names never seen before", c.Pick(50, 500), 0)
 }
 
 func routeOf(h gen.HostileCase) string {
@@ -262,6 +263,37 @@ func Child(c *run.Ctx, name string) {
 				}
 				os.Exit(exitStall)
 			}
+		}
+		if gi%100 == 33 {
+			// a burst: eight clients push at the same moment, every body with label names nobody has sent before
+			// (agents starting together, keys generated per pod or request): whatever the parsers keep between requests
+			// is written by all of them at once
+			var wgb sync.WaitGroup
+			var bmu sync.Mutex
+			var burst []*chw.Item
+			for cl := 0; cl < 8; cl++ {
+				wgb.Add(1)
+				go func(cl int) {
+					defer wgb.Done()
+					rb := c.Rng(fmt.Sprintf("c05/burst/%d/%d", gi, cl))
+					for j := 0; j < 6; j++ {
+						proto := []string{"loki-json-values", "loki-proto", "remote-write", "influx-log", "loki-json-entries"}[rb.Intn(5)]
+						var pool []string
+						for k := 0; k < 8; k++ {
+							pool = append(pool, fmt.Sprintf("k%d_%d_%d_%d", gi, cl, j, k))
+						}
+						lc := gen.NewLogCase(rb, gen.LogOpts{ID: fmt.Sprintf("bu%d-%d-%d", gi, cl, j), Proto: proto, Streams: 1 + rb.Intn(3), MaxEntries: 3, BaseNs: 1700000000000000000, LabelPool: pool})
+						it := &chw.Item{Kind: "logs", Req: gen.Render(rb, proto, lc), Phase: "canary", Single: true}
+						it.Rec = sess.Send(10+cl, &it.Req)
+						bmu.Lock()
+						burst = append(burst, it)
+						bmu.Unlock()
+					}
+				}(cl)
+			}
+			wgb.Wait()
+			canaries = append(canaries, burst...)
+			c.Floor("bursts of eight clients pushing bodies with label names never seen before", 0, 1)
 		}
 		rec := sess.Send(1, &hc.Req)
 		timedOut := func(e string) bool {
